@@ -557,3 +557,66 @@ func (s *Spec) reduced() bool {
 	}
 	return true
 }
+
+// Tiny enumerates all reduced grammars with nonterminals {S,A}, terminals {a,b},
+// at most 3 rules and right-hand sides of length at most 2 (F-tiny).
+func Tiny() []*Spec {
+	syms := []string{"'a'", "'b'", "S", "A"}
+	var rhss [][]string
+	rhss = append(rhss, nil)
+	for _, x := range syms {
+		rhss = append(rhss, []string{x})
+	}
+	for _, x := range syms {
+		for _, y := range syms {
+			rhss = append(rhss, []string{x, y})
+		}
+	}
+	type rl struct {
+		lhs string
+		rhs []string
+	}
+	var all []rl
+	for _, l := range []string{"S", "A"} {
+		for _, r := range rhss {
+			all = append(all, rl{l, r})
+		}
+	}
+	var out []*Spec
+	emit := func(idx []int) {
+		s := &Spec{Name: fmt.Sprintf("tiny_%d", len(out)), Tags: []string{"tiny"}, Toks: []Tok{litV('a'), litV('b')}}
+		usedA, defA := false, false
+		for _, i := range idx {
+			s.Rules = append(s.Rules, Rule{Lhs: all[i].lhs, Rhs: all[i].rhs})
+			if all[i].lhs == "A" {
+				defA = true
+			}
+			for _, x := range all[i].rhs {
+				if x == "A" {
+					usedA = true
+				}
+			}
+		}
+		if s.Rules[0].Lhs != "S" || usedA != defA {
+			return
+		}
+		s.NTTag = allVal("S", "A")
+		s.Start = "S"
+		s.Finish()
+		if !s.reduced() {
+			return
+		}
+		out = append(out, s)
+	}
+	n := len(all)
+	for i := 0; i < n; i++ {
+		emit([]int{i})
+		for j := i + 1; j < n; j++ {
+			emit([]int{i, j})
+			for k := j + 1; k < n; k++ {
+				emit([]int{i, j, k})
+			}
+		}
+	}
+	return out
+}
